@@ -25,7 +25,7 @@ RULE = (
     "bound to None, one or several (passive) addresses from a pool of 4 group + 2 internal addresses; histories of up to 24 "
     "add / remove steps incl. duplicate add, re-add and remove of unregistered devices, registry started or not; devices may carry a set-up fault "
     "(sync_state=' ' that the StateUpdater cannot parse, or register_state_updater / async_start_tasks patched to raise always / once) so that "
-    "async_add raises half-way; after every step "
+    "async_add raises half-way; 'mid' steps let a device add another device or remove a later-registered one from inside its process() during the dispatch; after every step "
     "a write, read or response telegram to every pool address, an unused group address and an individual address; "
     "non-trivial = some telegram had >= 2 expected receivers after at least one removal, or an erroneous add/remove was exercised with devices registered; "
     "distinct by (devices, history)"
@@ -40,7 +40,11 @@ ASSUMPTIONS = [
     "'uses its group address' = Device.has_group_address(address) of the registered device",
     "the error for duplicate add / unknown remove is ValueError (Devices.async_add / async_remove)",
     "telegrams addressed to an individual address reach no device",
-    "additions and removals happen between telegrams (the property's 'sequence of device additions and removals'); a registry change made from inside a device callback while one telegram is being dispatched is not in the domain - 'registered' is then ambiguous and the pinned tree itself skips the next device when a device removes itself mid-dispatch",
+    "registry changes made from inside a device's process() / callback while a telegram is being dispatched are generated in two forms: adding a new (fault-free) device "
+    "on the same or another pool address, and removing a LATER-registered device; for that telegram only the devices registered before the dispatch started and still "
+    "registered when it ends are judged (each using the address processes it exactly once, in registration order; no exception out of Devices.process); the added / removed "
+    "device itself is not judged for that telegram. A device removing ITSELF (or an earlier device) mid-dispatch stays excluded: 'registered' is ambiguous there and the "
+    "pinned tree skips the next device in that case",
 ]
 
 POOL = ["1/0/1", "1/0/2", "1/0/3", "7/7/7", "i-a", "i-b"]
@@ -153,7 +157,11 @@ def device_specs(draw):
 def histories(draw):
     devs = draw(st.lists(device_specs(), min_size=2, max_size=7))
     n = len(devs)
-    op = st.tuples(st.sampled_from(["add", "add", "add", "remove", "remove"]), st.integers(0, n - 1))
+    op = st.one_of(
+        st.tuples(st.sampled_from(["add", "add", "add", "remove", "remove"]), st.integers(0, n - 1)),
+        st.tuples(st.sampled_from(["add", "add", "add", "remove", "remove"]), st.integers(0, n - 1)),
+        st.tuples(st.sampled_from(["mid_add", "mid_add", "mid_remove"]), st.integers(0, n - 1), st.integers(0, n - 1)),
+    )
     ops = draw(st.lists(op, min_size=1, max_size=24))
     return {"devices": devs, "started": draw(st.booleans()), "apci": draw(st.sampled_from(["write", "write", "read", "response"])), "ops": [list(o) for o in ops]}
 
@@ -191,65 +199,97 @@ def oracle(ctx, h) -> None:
             xknx.started.set()
         devices = [build_device(xknx, i, s) for i, s in enumerate(h["devices"])]
         calls: list[int] = []
-        for i, d in enumerate(devices):
-            d.process = (lambda i: lambda telegram: calls.append(i))(i)  # recorder instead of the device logic
         reg = xknx.devices
         model: list[int] = []
+        state: dict = {"mid": None}
+
+        def recorder(i: int):
+            def process(telegram) -> None:
+                calls.append(i)
+                m = state["mid"]
+                if m is None or m["fired"] or m["actor"] != i or i not in model:
+                    return
+                n = len(devices)
+                for t in [(m["target"] + k) % n for k in range(n)]:  # first suitable device, starting at the drawn one
+                    spec = h["devices"][t]
+                    if m["kind"] == "mid_add" and t != i and t not in model and (len(spec) < 3 or spec[2] is None):
+                        m["fired"], m["target"] = True, t
+                        reg.async_add(devices[t])
+                        return
+                    if m["kind"] == "mid_remove" and t in model and model.index(t) > model.index(i):
+                        m["fired"], m["target"] = True, t  # a LATER registered device (self-removal mid-dispatch stays excluded)
+                        reg.async_remove(devices[t])
+                        return
+
+            return process
+
+        for i, d in enumerate(devices):
+            d.process = recorder(i)  # recorder instead of the device logic
         removed_once = False
         ever_removed: set[int] = set()
         try:
-            for step, (name, i) in enumerate(h["ops"]):
-                dev = devices[i]
+            for step, op in enumerate(h["ops"]):
+                name, i = op[0], int(op[1])
                 before = list(model)
-                expect_error = (name == "add") == (i in model)
-                fault = h["devices"][i][2] if len(h["devices"][i]) > 2 else None
-                setup_failed = False
-                try:
-                    if name == "add":
-                        reg.async_add(dev)
-                    else:
-                        reg.async_remove(dev)
-                    raised = None
-                except Exception as e:  # noqa: BLE001
-                    if name == "add" and not expect_error and fault is not None:
-                        # the device's own set-up failed inside async_add: either outcome (registered / not
-                        # registered) is accepted, but every view of the registry has to agree on it
-                        setup_failed = True
-                        raised = None
-                        info["cls"].add("add-fails-in-set-up:" + (fault if isinstance(fault, str) else fault[0]))
-                    elif isinstance(e, ValueError):
-                        raised = e
-                    else:
-                        ctx.fail(f"C37:exc:{name}:{exc_site(e)}", h, f"step {step} {name} d{i} ({h['devices'][i][0]}) raised {e!r}")
-                        return
-                if expect_error:
-                    info["cls"].add("duplicate-add" if name == "add" else "remove-unregistered")
-                    if model:
-                        info["nontrivial"] = True
-                    if raised is None:
-                        ctx.fail(f"C37:no-error:{'duplicate-add' if name == 'add' else 'remove-unregistered'}", h, f"step {step}: {name} d{i} did not raise")
-                        return
+                expect_error = setup_failed = False
+                if name.startswith("mid_"):
+                    # no change now: device `i` changes the registry from inside its process() during the
+                    # first telegram it receives in the dispatch round below
+                    state["mid"] = {"kind": name, "actor": i, "target": int(op[2]), "fired": False}
                 else:
-                    if raised is not None:
-                        ctx.fail(f"C37:spurious-error:{name}", h, f"step {step}: {name} d{i} raised {raised!r} although it was {'not ' if name == 'add' else ''}registered")
-                        return
-                    if name == "add" and setup_failed:
-                        if dev in reg:
-                            model.append(i)
-                            info["cls"].add("failed-set-up-left-registered")
+                    dev = devices[i]
+                    before = list(model)
+                    expect_error = (name == "add") == (i in model)
+                    fault = h["devices"][i][2] if len(h["devices"][i]) > 2 else None
+                    setup_failed = False
+                    try:
+                        if name == "add":
+                            reg.async_add(dev)
+                        else:
+                            reg.async_remove(dev)
+                        raised = None
+                    except Exception as e:  # noqa: BLE001
+                        if name == "add" and not expect_error and fault is not None:
+                            # the device's own set-up failed inside async_add: either outcome (registered / not
+                            # registered) is accepted, but every view of the registry has to agree on it
+                            setup_failed = True
+                            raised = None
+                            info["cls"].add("add-fails-in-set-up:" + (fault if isinstance(fault, str) else fault[0]))
+                        elif isinstance(e, ValueError):
+                            raised = e
+                        else:
+                            ctx.fail(f"C37:exc:{name}:{exc_site(e)}", h, f"step {step} {name} d{i} ({h['devices'][i][0]}) raised {e!r}")
+                            return
+                    if expect_error:
+                        info["cls"].add("duplicate-add" if name == "add" else "remove-unregistered")
                         if model:
                             info["nontrivial"] = True
-                    elif name == "add":
-                        if i in ever_removed:
-                            info["cls"].add("re-add")
-                        model.append(i)
+                        if raised is None:
+                            ctx.fail(f"C37:no-error:{'duplicate-add' if name == 'add' else 'remove-unregistered'}", h, f"step {step}: {name} d{i} did not raise")
+                            return
                     else:
-                        model.remove(i)
-                        ever_removed.add(i)
-                        removed_once = True
-                        info["cls"].add("remove")
+                        if raised is not None:
+                            ctx.fail(f"C37:spurious-error:{name}", h, f"step {step}: {name} d{i} raised {raised!r} although it was {'not ' if name == 'add' else ''}registered")
+                            return
+                        if name == "add" and setup_failed:
+                            if dev in reg:
+                                model.append(i)
+                                info["cls"].add("failed-set-up-left-registered")
+                            if model:
+                                info["nontrivial"] = True
+                        elif name == "add":
+                            if i in ever_removed:
+                                info["cls"].add("re-add")
+                            model.append(i)
+                        else:
+                            model.remove(i)
+                            ever_removed.add(i)
+                            removed_once = True
+                            info["cls"].add("remove")
                 # ---- registry views --------------------------------------------
                 what = "changed-by-failed-" + name if expect_error else ("after-add-failing-in-set-up" if setup_failed else "after-" + name)
+                if name.startswith("mid_"):
+                    what = "registry-changed-during-dispatch:" + name[4:]
                 listed = [devices.index(d) for d in reg]
                 if listed != model:
                     ctx.fail(f"C37:iteration:{what}", h, f"step {step}: registry iterates {listed}, reference {model} (before {before})")
@@ -270,8 +310,25 @@ def oracle(ctx, h) -> None:
                         ctx.fail(f"C37:exc:process:{exc_site(e)}", h, f"step {step}: process of telegram to {label} raised {e!r}")
                         return
                     dst = telegram.destination_address
-                    exp = [] if isinstance(dst, IndividualAddress) else [j for j in model if devices[j].has_group_address(dst)]
-                    got = list(calls)
+                    m = state["mid"]
+                    fired = m is not None and m["fired"]
+                    # a device added / removed while this telegram was dispatched is not judged for it; every device
+                    # registered before and after must still get it exactly once, in registration order
+                    skip = m["target"] if fired else None
+                    exp = [] if isinstance(dst, IndividualAddress) else [j for j in model if j != skip and devices[j].has_group_address(dst)]
+                    got = [c for c in calls if c != skip]
+                    if fired:
+                        info["cls"].add("registry-changed-during-dispatch:" + m["kind"][4:] + (":same-address" if devices[skip].has_group_address(dst) else ":other-address"))
+                        if len(exp) >= 2:
+                            info["nontrivial"] = True
+                        if m["kind"] == "mid_add":
+                            if devices[skip] in reg:
+                                model.append(skip)
+                        else:
+                            model.remove(skip)
+                            ever_removed.add(skip)
+                            removed_once = True
+                        state["mid"] = None
                     if got != exp:
                         if sorted(got) == sorted(exp):
                             kind = "order"
@@ -283,6 +340,8 @@ def oracle(ctx, h) -> None:
                             kind = "missing-receiver"
                         ctx.fail(f"C37:dispatch:{kind}:{what}", h, f"step {step} ({name} d{i}): telegram to {label} processed by {got}, reference scan {exp}; registered {model}")
                         return
+                    if fired:
+                        exp = [] if isinstance(dst, IndividualAddress) else [j for j in model if devices[j].has_group_address(dst)]
                     looked = [devices.index(d) for d in reg.devices_by_group_address(dst)] if not isinstance(dst, IndividualAddress) else []
                     if looked != exp:
                         ctx.fail(f"C37:lookup:{what}", h, f"step {step}: devices_by_group_address({label}) = {looked}, reference {exp}")
@@ -291,6 +350,7 @@ def oracle(ctx, h) -> None:
                         info["nontrivial"] = True
                     if len(exp) >= 2:
                         info["cls"].add("shared-address")
+                state["mid"] = None
         finally:
             for d in list(reg):
                 try:
